@@ -95,6 +95,9 @@ def cli_runs(ck, thorough):
         ["--num-particles", "1", "--resample-threshold", "0", "--outlier-prob", "0.0001", "-n", "4", "-s", "0.5", "--proposal", "bootstrap", "--no-concentration-update", "--grid-size", "11"],
         ["--num-particles", "3", "--resample-threshold", "1", "--outlier-prob", "0.5", "-n", "4", "--thin", "2", "-s", "1", "--proposal", "fully-adapted", "--density", "binomial", "--grid-size", "11"],
         ["--num-particles", "2", "-n", "3", "--max-time", "0", "--burnin", "2", "--proposal", "semi-adapted", "--precision", "1.0", "--grid-size", "12"],
+        # a fine grid (FFT convolution from 1000 points) with two samples and clones that get three and more children
+        ["--num-particles", "4", "-n", "3", "--burnin", "2", "--proposal", "semi-adapted", "--grid-size", "1000", "--outlier-prob", "0.1"],
+        ["--num-particles", "3", "-n", "2", "--burnin", "1", "--proposal", "bootstrap", "--grid-size", "1001", "--density", "binomial", "--concentration-value", "8.0", "--no-concentration-update"],
     ]
     if thorough:
         combos += [["--num-particles", str(p_), "--resample-threshold", str(t_), "--outlier-prob", str(o_), "-n", "3", "--proposal", pr, "--grid-size", "11", "-s", str(sb)]
